@@ -2,6 +2,7 @@
 package main
 
 import (
+	"encoding/json"
 	"flag"
 	"fmt"
 	"os"
@@ -65,6 +66,14 @@ func main() {
 			usage()
 		}
 		os.Exit(pcv.RunCheck(pos[0], *repo, *verif, *tier, *only, seed, start))
+	case "witness":
+		if len(pos) < 1 {
+			usage()
+		}
+		idx, _ := strconv.Atoi(pos[0])
+		r := pcv.RunWitness(*repo, *verif, idx)
+		data, _ := json.Marshal(r)
+		fmt.Println(string(data))
 	case "explain":
 		if len(pos) < 1 {
 			usage()
